@@ -301,7 +301,7 @@ func gen(t *rapid.T) Case {
 			alpha = "ACGTUZ"
 		}
 	}
-	c.Seq = vk.DrawSeq(t, "seq", alpha, 0, vk.Pick(20000, 100000))
+	c.Seq = vk.DrawSeq(t, "seq", alpha, 0, 100000)
 	s := c.Seq.String()
 	if typ == "RNA" && rapid.Bool().Draw(t, "spell_U") {
 		s = strings.ReplaceAll(s, "T", "U")
